@@ -235,8 +235,9 @@ def impostor_case(ck, seed, role, auth, vi, rng):
 def skip_auth_case(ck, seed, vi, rng):
     """The impostor (which needs NO credential for this) completes IKE_SA_INIT and then sends, protected with the fresh keys, something
     else than IKE_AUTH: the responder must neither install an SA nor become established nor create a successor."""
-    sim, a, b = S.make_pair(seed)
-    sim.case = {'family': 'skip-auth', 'variant': vi}
+    patient = vi % 2 == 1
+    sim, a, b = S.make_pair(seed, dpd=5) if patient else S.make_pair(seed)
+    sim.case = {'family': 'skip-auth', 'variant': vi, 'silent_past_the_dpd_interval_first': patient}
     p = party.RefParty(S.A4, S.B4, rng)
     trs = [{'type': 1, 'id': 12, 'keylen': 256}, {'type': 3, 'id': 12, 'keylen': None}, {'type': 2, 'id': 5, 'keylen': None}, {'type': 4, 'id': 19, 'keylen': None}]
     sim.inject(b, S.A4, S.B4, p.init_request(trs, 19))
@@ -259,6 +260,26 @@ def skip_auth_case(ck, seed, vi, rng):
                 ('informational-delete-ike', 37, [{'type': codec.DELETE, 'critical': False, 'proto': 1, 'spis': []}]),
                 ('ike-auth-without-auth-payload', 35, [{'type': codec.IDI, 'critical': False, 'idtype': ID_A[0], 'data': ID_A[1]}, sa_child, tsi, tsr, transport]),
                 ('ike-auth-without-id-payload', 35, [{'type': codec.AUTH, 'critical': False, 'method': 2, 'data': gen.rb(rng, 32)}, sa_child, tsi, tsr, transport])]
+    if patient:
+        # the impostor stays silent for longer than the DPD interval and the retransmission budget of a probe, answering (with the DH-derived keys, which need no
+        # credential) whatever the victim asks in the meantime: a half-open IKE_SA must not become a usable one by waiting
+        for _ in range(24):
+            sim.clock.advance(1.0)
+            b.step('tick')
+            for d in [x for x in sim.net if x.dst == S.A4]:
+                sim.net.remove(d)
+                try:
+                    hdr_, _inner, _i = p.open(d.data)
+                except Exception:
+                    continue
+                if not hdr_['flags'] & 0x20:
+                    ck.count('skipauth.requests_of_the_victim_answered_by_the_unauthenticated_party')
+                    sim.inject(b, S.A4, S.B4, p.seal(hdr_['exch'], hdr_['mid'], [], response=True))
+            est = any(10 <= s_.state.value < 21 for s_ in b.ctl.ike_sas)
+            if est:
+                ck.violation('established-or-installed-without-any-auth-exchange:by-waiting-and-answering-the-victims-requests', {'states': [s_.state.name for s_ in b.ctl.ike_sas]}, sim.case)
+                return
+        ck.count('skipauth.patient_runs')
     for mid in (1, 0):
         for label, exch, pls in variants:
             n0 = newsa_count(b)
@@ -531,6 +552,12 @@ def mismatch_cases():
     mod('B-expects-another-id-from-A', lambda a, b: b['peer_auth'].update(id='carol@example.org'))
     mod('A-expects-another-id-from-B', lambda a, b: a['peer_auth'].update(id='bobby.example.org'))
     mod('B-expects-fqdn-type-id-from-A', lambda a, b: (b['peer_auth'].update(id='alice.example.org'), a['my_auth'].update(id='alice.example.org@')))
+    # identities are compared octet by octet (RFC 7296 3.5: no canonical form): another SPELLING of the same name is another identity
+    mod('B-expects-A-spelled-with-capitals-in-the-domain', lambda a, b: b['peer_auth'].update(id='alice@Example.ORG'))
+    mod('A-expects-B-with-a-trailing-dot', lambda a, b: a['peer_auth'].update(id='bob.example.org.'))
+    mod('A-expects-B-in-upper-case', lambda a, b: a['peer_auth'].update(id='BOB.EXAMPLE.ORG'))
+    mod('B-expects-A-with-upper-case-local-part', lambda a, b: b['peer_auth'].update(id='Alice@example.org'))
+    mod('A-presents-capitals-B-expects-lower-case', lambda a, b: a['my_auth'].update(id='alice@EXAMPLE.org'))
     mod('A-uses-ip-id-B-expects-text', lambda a, b: a['my_auth'].update(id='192.0.2.1'))
     mod('A-psk-B-expects-rsa', lambda a, b: (b['peer_auth'].pop('psk'), b['peer_auth'].update(pubkey=pa[1])))
     mod('A-rsa-B-expects-psk', lambda a, b: (a['my_auth'].pop('psk'), a['my_auth'].update(privkey=pa[0])))
@@ -677,6 +704,7 @@ def run(ck):
 
 def verdict(ck):
     c = ck.counters
+    ck.floor('half-open IKE_SAs whose unauthenticated peer waited past the DPD interval', c['skipauth.patient_runs'], 1)
     ck.floor('valid impostor controls accepted', c['control.valid_accepted'], 4)
     ck.floor('real initiator AUTH verified by the reference', c['control.real_initiator_auth_verified_by_reference'], 20)
     ck.floor('invalid AUTH variants presented', sum(v for k, v in c.items() if k.startswith('impostor.') and k.endswith('.invalid')), 50)
